@@ -221,3 +221,45 @@ Definition f64_sb_approx (sig a b : N) (out : res str) : bool :=
        numeral_sb s x y sig)
   | Panic _ => false
   end.
+
+(** * Explicit precision / width ([format!("{t:<w$.p$}")] of a
+    [DisplayThroughput]): the precision is read once, as the number of
+    significant figures; the width pads with the fill character on the right
+    ([str.len()] is the byte length); nothing is ever cut. *)
+Definition thr_sig (prec : option N) : N := match prec with Some s => s | None => 4 end.
+
+Definition display_throughput_with (kind count picos : N) (binary : bool)
+    (prec width : option N) : res str :=
+  do f <- thr_format kind binary;
+  do s <- fmt_scaled f (thr_sig prec) (thr_value count picos);
+  Ok (fill_to width s).
+
+(** [<number> ' ' <suffix>] without the padding: up to the second space. *)
+Definition body_of (out : str) : str :=
+  let '(num, orest) := split_at ch_space out in
+  match orest with
+  | None => num
+  | Some rest => let '(suf, _) := split_at ch_space rest in num ++ [ch_space] ++ suf
+  end.
+
+Definition throughput_sig_sb (sig kind count picos : N) (binary : bool) (s : str) : bool :=
+  match thr_format kind binary with
+  | Ok f =>
+      if count =? 0 then str_eqb s ([ch_0; ch_space] ++ spec_suffix f 0)
+      else if picos =? 0 then str_eqb s ([105; 110; 102; ch_space] ++ spec_suffix f 0)
+      else scaled_sb_approx f sig (count * 1000000000000) picos s
+  | Panic _ => false
+  end.
+
+(** The output is the rule's string for [thr_sig prec] significant figures
+    (up to double-precision rounding), followed by exactly the spaces needed
+    to reach the width — in particular it is never shortened. *)
+Definition throughput_with_sb (kind count picos : N) (binary : bool) (prec width : option N)
+    (out : res str) : bool :=
+  match out with
+  | Ok s =>
+      let body := body_of s in
+      str_eqb s (fill_to width body) &&
+      throughput_sig_sb (thr_sig prec) kind count picos binary body
+  | Panic _ => false
+  end.
